@@ -84,6 +84,65 @@ CLAIMED.update({
              "Ambiguous cases the statement does not settle are not generated.",
         design="DESIGN.md section 4 (C18)",
     ),
+    "C02": dict(
+        category="exploration",
+        technique="deterministic simulation of the solver's choice: adversarial optimal-vertex selection at every solve, integrality jitter, status faults; independent objective evaluator + brute force over allele multisets as reference model",
+        text="Stage-level calls of estimate_major() on the toy gene, generated databases (and shipped genes in the thorough "
+             "tier) with planted, noisy and wild read-count tables; each case is solved under plain CBC, under several "
+             "adversary sub-seeds, under jitter and with one status fault. Every reported combination, whichever optimum "
+             "was drawn, is judged by an independent evaluator (configuration counts, carried XOR novel, one novel per "
+             "site, score = fit error + novelty penalties) and the reported set is compared with brute force over all "
+             "allele multisets (optimality, completeness within the gap, no repeats).",
+        note="Trusted: aldy's own evidence filter is taken as the evidence (filters belong to C15); two constants the "
+             "statement does not name (0.1 per novel variant, profile.major_novel). Instances beyond 60000 multisets are "
+             "only cross-checked between adversary seeds.",
+        design="DESIGN.md section 4 (C02-C04)",
+    ),
+    "C03": dict(
+        category="exploration",
+        technique="deterministic simulation of the solver's choice (adversarial optimum, jitter, status faults); independent evaluator of the documented objective minimised over internal slot assignments + brute force over configuration multisets",
+        text="solve_cn_model() / estimate_cn() on depth vectors planted from 0-4 configurations with additive noise on a "
+             "0.01 grid, maximum copy number 3-6, gap 0 / 0.1 / 0.3, optional long-read fusion support; every reported "
+             "structure under every solver behaviour is judged for well-formedness and its score recomputed as the best "
+             "explanation of that structure; optimality and the containment rule are decided against enumeration of all "
+             "configuration multisets; configuration clauses (verbatim user structure, unknown names, default copies) "
+             "are exercised directly.",
+        note="Trusted: the evaluator's reading of the documented objective (constants listed in the evidence assumptions).",
+        design="DESIGN.md section 4 (C02-C04)",
+    ),
+    "C04": dict(
+        category="exploration",
+        technique="deterministic simulation of the solver's choice over the optimal face of the minor model (adversary), jitter, status faults; rules 1-6 + independent objective evaluator + brute force over (minor x kept x added) on tiny instances",
+        text="estimate_minor() on 1-3 copy major solutions over the toy gene and generated databases, with planted, "
+             "noisy, wild, edited (variant lost / gained) and homozygous evidence, with and without phase records. The "
+             "minor stage keeps one optimum, so the adversary makes 'every reported refinement' range over the optimal "
+             "face: rules 1-6 are evaluated on each, the score is recomputed (phase off), the optimum value must agree "
+             "across adversary seeds and with exhaustive enumeration on tiny instances.",
+        note="Trusted: evidence filters re-applied through aldy's Coverage.filtered; tie-breaker bound used as tolerance; "
+             "read-phase term not re-implemented (those cases: rules + cross-adversary agreement only).",
+        design="DESIGN.md section 4 (C02-C04)",
+    ),
+    "C06": dict(
+        category="exploration",
+        technique="deterministic simulation of record delivery (container, index visibility, order, CIGAR run splitting, interleaved ineligible records, read error at the k-th record) against an independent CIGAR interpreter as reference model",
+        text="Random read sets (CIGAR over M,=,X,I,D,S,H; secondary / supplementary / duplicate / unmapped flags; "
+             "qualities at the bin edges; shared fragment names; complete and partial MNPs) are delivered seven ways and "
+             "once with a read error; aldy's coverage table and phase records are compared cell by cell with the "
+             "reference interpreter and across deliveries. htslib's pileup cross-checks the reference model.",
+        note="Trusted: the reference interpreter (cross-checked against htslib pileup every run). Indel evidence from "
+             "indelpost is excluded (DESIGN.md).",
+        design="DESIGN.md section 4 (C06)",
+    ),
+    "C07": dict(
+        category="exploration",
+        technique="deterministic simulation: k-fold duplicate delivery at the stream seam, gene-only multiplication by the container writer, profile -> genotype two-process history (BAM and aldy-written YAML hand-over, different hash seeds), index / order variation, neutral-region loss",
+        text="For sampled worlds the profile sample is normalised against its own profile through both hand-over routes "
+             "(must read exactly 2.0), a planted sample is measured, re-measured with every record delivered k times "
+             "(invariant, same structure), with gene records x k (linear), through another delivery path (equal) and "
+             "without neutral reads (rejected).",
+        note="Trusted: exact-tiling read simulator. The approximate NA10860 clause is not decided.",
+        design="DESIGN.md section 4 (C07)",
+    ),
 })
 
 NA = {
